@@ -39,6 +39,12 @@ func runC13(c *Ctx) {
 	for _, rel := range []string{"pkg/pow", "pkg/pow/v2"} {
 		c13Mine(c, rel)
 	}
+	// "Mine returns either a nonce that meets the target or the cancellation error": the first half is the statement of
+	// C11 (v1) and C12 (v2); their obligations are decided here as well (a change to the target computation inside Mine
+	// breaks this property too)
+	r.Rule("C13.meets-target", "the obligations of C11 (pow v1) and C12 (pow v2) hold: a nonce handed out by Mine meets the target score")
+	reKey(c, "C11.", "C13.meets-target.v1.", func() { runC11(c) })
+	reKey(c, "C12.", "C13.meets-target.v2.", func() { runC12(c) })
 }
 
 type sharedCell struct {
